@@ -19,6 +19,23 @@ def short_id(fid):
     return '::'.join(q[-2:]) + '(' + fid[len(contracts.fn_qname(fid)) + 1:].rsplit(')', 1)[0].replace('ipr::', '').replace('impl::', '') + ')'
 
 
+def absorbed_qualification(fid, confirmed, now, val):
+    """Lemma for get_qualified (documented normal form, C11): for an operand T that is Qualified and a requested set q contained
+    in T.qualifiers(), the node of (q | T.qualifiers(), T.main_variant()) is T itself (T is the one node of its own key, C01).
+    So `T` under the condition (q & T.qualifiers()) == q is the same outcome as re-issuing the request on the merged set."""
+    import re
+    if not fid.startswith('ipr::impl::type_factory::get_qualified('):
+        return False
+    try:
+        c, n = json.loads(confirmed), json.loads(now)
+    except ValueError:
+        return False
+    if n.get('result') != 'P1' or not re.match(r'^\$this\.get_qualified\(\(P0 \| P1\.[^()]*(first|qualifiers)\(\)\), P1\.[^()]*(second|main_variant)\(\)\)$', c.get('result') or ''):
+        return False
+    sub = re.compile(r'^\(\((P0 & P1\.[^()]*(first|qualifiers)\(\)|P1\.[^()]*(first|qualifiers)\(\) & P0)\) == P0\)$')
+    return any(v and sub.match(a.strip()) for a, v in val.items())
+
+
 def run(ck, F):
     ck.explanation = (
         'Every factory (all members of the nine factory classes returning a node, plus the member builders of '
@@ -65,7 +82,8 @@ def run(ck, F):
         if not same_shape:
             # the tests may have been restructured: compare what is selected for every valuation of the atomic conditions
             sig = lambda p: json.dumps({k: v for k, v in p.items() if k not in ('when', 'stored_params')}, sort_keys=True)
-            eq, wit = guards.equivalent([(p.get('when', ''), sig(p)) for p in want], [(p.get('when', ''), sig(p)) for p in paths])
+            eq, wit = guards.equivalent([(p.get('when', ''), sig(p)) for p in want], [(p.get('when', ''), sig(p)) for p in paths],
+                                        same=(lambda x, y, val, fid=fid: absorbed_qualification(fid, x, y, val)))
             if eq:
                 ck.ok(R_paths, sid, detail='guards restructured, same outcome for every valuation of the atomic conditions')
                 for i, p in enumerate(paths):
@@ -112,6 +130,7 @@ def run(ck, F):
             K.factory(F.fn[fid])
             nuni += 1
     K.finish_cover()
+    K.finish_partial(())
     for r in (K.R_diag, K.R_lex):
         ck.rules[r]['floor'] = 30
     ck.rules[K.R_atom]['floor'] = 2
